@@ -129,7 +129,7 @@ func genRecCase(rng *rand.Rand, env string) *recCase {
 	}
 	c.Where = []string{"route", "route", "action", "notfound", "group"}[rng.Intn(5)]
 	c.Phase = []string{"before", "before", "after-header", "after-body"}[rng.Intn(4)]
-	c.Kind = []string{"string", "error", "runtime", "struct", "int", "abort", "dep", "nilerr", "neterr-epipe", "neterr-reset", "slice", "map", "structslice", "sliceerr", "bad-status-writeheader", "bad-status-return", "before-function-panics", "long-cjk", "line-directive"}[rng.Intn(19)]
+	c.Kind = []string{"string", "error", "runtime", "struct", "int", "abort", "dep", "nilerr", "neterr-epipe", "neterr-reset", "slice", "map", "structslice", "sliceerr", "bad-status-writeheader", "bad-status-return", "before-function-panics", "long-cjk", "line-directive", "invoke-non-function", "invoke-nil", "apply-non-struct", "urlpath-unknown-name"}[rng.Intn(23)]
 	c.Method = []string{"GET", "GET", "GET", "HEAD"}[rng.Intn(4)]
 	switch x := rng.Intn(200); {
 	case x == 0:
@@ -220,6 +220,8 @@ func (c *recCase) markerOf() string {
 		return "connection reset by peer"
 	case "bad-status-writeheader", "bad-status-return":
 		return "invalid WriteHeader code 42"
+	case "invoke-non-function", "invoke-nil", "apply-non-struct":
+		return "c15_recovery.go" // whatever the misuse raises, the stack names the handler's source file: shown in development, never otherwise
 	}
 	return c.Marker
 }
@@ -483,6 +485,16 @@ func judgeRec(w *core.W, c *recCase) {
 			panic([]string{c.Marker})
 		case "map":
 			panic(map[string]string{"detail": c.Marker})
+		case "invoke-non-function":
+			_, _ = ctx.Invoke("not a function") // misuse of the framework's own API: it panics inside the framework, half-way through whatever it was doing
+		case "invoke-nil":
+			_, _ = ctx.Invoke(nil)
+		case "apply-non-struct":
+			n := 7
+			_ = ctx.Apply(&n)
+			panic(c.Marker) // (Apply on a non-struct may or may not panic by itself)
+		case "urlpath-unknown-name":
+			_ = ctx.URLPath("no-such-route-" + c.Marker)
 		case "structslice":
 			panic(c15StructSlice{M: c.Marker, Tags: []string{"a"}})
 		case "sliceerr":
@@ -672,7 +684,7 @@ func runC15(r *core.Run) {
 	ws.Done()
 	ws.Merge()
 	flamego.SetEnv(orig)
-	for _, k := range []string{"environment-switched-after-assembly", "process-environment-variable-set-after-start", "kind:string", "kind:error", "kind:runtime", "kind:struct", "kind:int", "kind:abort", "kind:dep", "kind:nilerr", "kind:neterr-epipe", "kind:neterr-reset", "kind:slice", "kind:map", "kind:structslice", "kind:sliceerr", "kind:bad-status-writeheader", "kind:bad-status-return", "kind:before-function-panics", "kind:long-cjk", "kind:line-directive", "method:HEAD", "deep-stack", "second-recovery-nearer-the-panic", "request-context-cancelled-while-unwinding", "buffering-writer-in-front-of-recovery", "phase:before", "phase:after-header", "phase:after-body", "where:route", "where:group", "where:action", "where:notfound", "depth:flat", "depth:nested-next", "follow-up-requests"} {
+	for _, k := range []string{"environment-switched-after-assembly", "process-environment-variable-set-after-start", "kind:string", "kind:error", "kind:runtime", "kind:struct", "kind:int", "kind:abort", "kind:dep", "kind:nilerr", "kind:neterr-epipe", "kind:neterr-reset", "kind:slice", "kind:map", "kind:structslice", "kind:sliceerr", "kind:bad-status-writeheader", "kind:bad-status-return", "kind:before-function-panics", "kind:long-cjk", "kind:line-directive", "kind:invoke-non-function", "kind:invoke-nil", "kind:apply-non-struct", "kind:urlpath-unknown-name", "method:HEAD", "deep-stack", "second-recovery-nearer-the-panic", "request-context-cancelled-while-unwinding", "buffering-writer-in-front-of-recovery", "phase:before", "phase:after-header", "phase:after-body", "where:route", "where:group", "where:action", "where:notfound", "depth:flat", "depth:nested-next", "follow-up-requests"} {
 		r.GateCounter(k, 100)
 	}
 	r.Gate("distinct_nontrivial", r.NonTrivialCount(), 1000)
